@@ -340,6 +340,9 @@ pub fn check_c16(case: &Case, h: &History) -> Vec<Violation> {
     };
     let lines = src_lines(&case.scn);
     let (_, segs) = segments(h);
+    if gen.tags.iter().any(|t| t == "count_mismatch") {
+        return check_c16_without_table(&lines, &segs);
+    }
     let n = gen.idx_line.len();
     for s in &segs {
         if s.idx >= n {
@@ -372,6 +375,65 @@ pub fn check_c16(case: &Case, h: &History) -> Vec<Violation> {
                         ));
                     }
                 }
+            }
+        }
+    }
+    v
+}
+
+/// The assembler emitted another number of instructions than the generator counted, so the
+/// instruction -> line table is void. What can still be said: a message that cites line L while
+/// instruction I executes is wrong when line L cannot have produced I - it neither contains the
+/// mnemonic of I (jumps, loops and repeat prefixes by family; a return also by a closing brace)
+/// nor uses a macro.
+fn check_c16_without_table(lines: &[String], segs: &[Seg]) -> Vec<Violation> {
+    let mut v = Vec::new();
+    for s in segs {
+        let m = s.code.trim().split(|c: char| c == ' ' || c == ',').next().unwrap_or("").to_ascii_lowercase();
+        if m.is_empty() {
+            continue;
+        }
+        for text in runloop_lines(s.events).iter() {
+            if text.starts_with("Internal Error") {
+                continue;
+            }
+            let c = match cited_line(text) {
+                Some(c) if c >= 1 => c as usize,
+                _ => continue,
+            };
+            let line = match lines.get(c - 1) {
+                Some(l) => shown_text(l).to_ascii_lowercase(),
+                None => {
+                    v.push(Violation::new(
+                        format!("C16:wrong_line{{{};beyond_the_file}}", msg_kind(text)),
+                        format!("message {:?} cites line {} of a file of {} lines", text.trim_end(), c, lines.len()),
+                    ));
+                    continue;
+                }
+            };
+            let words: Vec<&str> = line.split(|ch: char| !(ch.is_ascii_alphanumeric() || ch == '_')).filter(|w| !w.is_empty()).collect();
+            let family = |w: &str| -> bool {
+                if m.starts_with("rep") {
+                    w.starts_with("rep")
+                } else if m.starts_with("loop") {
+                    w.starts_with("loop")
+                } else if m.starts_with('j') {
+                    w.starts_with('j')
+                } else if m == "sal" || m == "shl" {
+                    w == "sal" || w == "shl"
+                } else {
+                    w == m
+                }
+            };
+            let can = words.iter().any(|w| family(w)) || line.contains('(') || (m == "ret" && line.contains('}'));
+            if !can {
+                v.push(Violation::new(
+                    format!("C16:wrong_line{{{};no_such_instruction_on_line}}", msg_kind(text)),
+                    format!(
+                        "message {:?} cites line {} ({:?}) while instruction #{} ({}) executes: that line cannot have produced it (the assembler emitted another number of instructions than the program has, so only this much can be checked)",
+                        text.trim_end(), c, line, s.idx, s.code
+                    ),
+                ));
             }
         }
     }
